@@ -2,7 +2,8 @@
    Only statements, [exact]s and Print Assumptions live here. *)
 From NDN Require Import Base.Prelude Base.Text Model.LvsAst Model.LvsChecker Model.LvsCompiler Spec.LvsSem Spec.LvsTree.
 From NDN Require Import Proofs.LvsMachine Proofs.LvsTreePaths Proofs.LvsCheckerThms Proofs.LvsSanity
-  Proofs.LvsFlatten Proofs.LvsGenTree Proofs.LvsCompileTree Proofs.LvsCompileThms.
+  Proofs.LvsFlatten Proofs.LvsGenTree Proofs.LvsCompileTree Proofs.LvsCompileThms Proofs.LvsCompileAccepts.
+From NDN Require Import Spec.LvsChains.
 Local Open Scope N_scope.
 
 (* Checker.check on any model that passes the loader: yes iff some path for the packet name ends in a node
@@ -58,3 +59,18 @@ Proof.
     as (rc & rk & cx & cx' & _ & _ & Hrk & _ & Hsem).
   exists rk, cx, cx'. auto.
 Qed.
+
+Theorem C12_check_iff_partial_static (ufn : ufn_t) S : static_ok S = true -> schema_wf S = true ->
+  exists chains st m, chains_of S = Ok (chains, st) /\ compile S = Ok m /\ sane m /\
+  forall fuel pkt key p k b,
+    strip_digest pkt = Ok p -> strip_digest key = Ok k ->
+    (Nat.max (match_cost m p) (match_cost m k) <= fuel)%nat ->
+    lvs_check ufn m fuel pkt key = Ok b ->
+    (b = true <-> exists rc rk cx cx', In rc chains /\ chain_sem_from ufn 0 rc p [] cx /\ In rk chains /\
+                                       In (ch_id rk) (ch_sign rc) /\ chain_sem_from ufn 0 rk k cx cx').
+Proof.
+  intros H1 H2. destruct (compile_accepts S H1 H2) as (chains & st & m & Hc & Hm & Hok).
+  exists chains, st, m. split; [exact Hc|]. split; [exact Hm|]. split; [exact (compile_sane ufn S chains st m Hc Hm Hok)|].
+  exact (check_chains ufn S chains st m Hc Hm Hok).
+Qed.
+Print Assumptions C12_check_iff_partial_static.
